@@ -173,6 +173,34 @@ theorem hard_draw_rows (maxW maxH : UInt16) (cells : List Cell)
       cases (splitNl cells)[y]? <;> rfl
     rw [this]; rfl
 
+/-- **`Text.Draw` with `Softwrap = false`** on the lines `bufio.Scanner` hands it (a parameter: any
+list of lines, already passed through `ctx.Characters`): the same row loop with the ellipsis in the
+widget's style, on a surface filled with that style. -/
+theorem text_hard_draw_rows (style : Nat) (maxW maxH : UInt16) (lines : List (List Cell))
+    (hw : ∀ l ∈ lines, sumW l < 65536) :
+    ∃ s, Layout.drawText Surface.srcArith (Layout.textMode true style) (ctxOf maxW maxH)
+          (lines.map (·.map (toWinSt style))) = .ok s ∧
+      s.h.toNat = min lines.length maxH.toNat ∧
+      s.buf.length = s.h.toNat * s.w.toNat ∧
+      ∀ x y, x < s.w.toNat → y < s.h.toNat →
+        cellAt s x y = overHard maxW.toNat (some style) ((lines.getD y []).map (toWinSt style)) 0
+          (fun _ => some { (default : Window.Cell) with st := style }) x := by
+  have hall : ∀ l ∈ lines.map (·.map (toWinSt style)), (∀ c ∈ l, 0 ≤ c.w) ∧ width l < 65536 := by
+    intro l hl
+    obtain ⟨l0, hl0, rfl⟩ := List.mem_map.mp hl
+    refine ⟨?_, by rw [width_toWinSt]; exact hw l0 hl0⟩
+    intro c hc
+    obtain ⟨c0, _, rfl⟩ := List.mem_map.mp hc
+    simp [toWinSt]
+  obtain ⟨s, h1, _, h3, h4, h5⟩ := drawText_cells_hard (Layout.textMode true style) rfl rfl rfl (ctxOf maxW maxH) _ hall
+  refine ⟨s, by rw [facts_draw_modes.1]; exact h1, by simpa [ctxOf] using h3, h4, ?_⟩
+  intro x y hx hy
+  rw [h5 x y hx hy]
+  have : (lines.map (·.map (toWinSt style))).getD y [] = (lines.getD y []).map (toWinSt style) := by
+    simp only [List.getD_eq_getElem?_getD, List.getElem?_map]
+    cases lines[y]? <;> rfl
+  rw [this]; rfl
+
 /-- "draws exactly the line" for the hard-wrap widget, full statement: a line that fits the widget
 (`width ≤ Max.Width`) is drawn as it is.  **False** of the current code (finding F316: a line that
 fits exactly loses its last grapheme to an ellipsis). -/
